@@ -294,12 +294,10 @@ class Gen:
         # rank, so hosts of acting observers stay where they are
         if s in self.ahosts:
             return
-        if self.interleaved:
-            return
         # observers move with the signals of their host: a move must not put an observer that resets q's binding on q itself
         # (the binding would be destroyed inside the notification it is delivering: outside every quantifier)
         forbidden = {q for host, q in self.robs if host == s}
-        if r.random() < 0.5 and len(self.props) < 12:
+        if (r.random() < 0.5 or self.interleaved) and len(self.props) < 12:
             d = self.next_prop
             self.next_prop += 1
             self.emit(f"pmovector {s} {d}")
@@ -309,6 +307,8 @@ class Gen:
             self.props[d] = dict(rank=self.props[s]['rank'], bound=self.props[s]['bound'], mode=self.props[s].get('mode'),
                                  inputs=self.props[s].get('inputs', []))
             self.props[s]['bound'] = False
+        elif self.interleaved:
+            return
         else:
             rd = self.read_props() if self.inside else set()
             d = self.pick(lambda p, _: p != s and p not in forbidden and p not in rd)
